@@ -401,7 +401,9 @@ pub fn gen_case(prop: &str, seed: u64, index: u64) -> (Case, usize) {
     let d = gen_doc::gen_doc(&mut p, &k);
     let xml = gen_doc::render(&d);
     let events = gen_doc::gen_events(&mut p, 10);
-    let single = p.chance(1, 2);
+    // a burst is not enqueued atomically: with events the session sends to itself the interleaving
+    // would be a race, so such documents get their events one at a time
+    let single = p.chance(1, 2) || xml.contains("<send event=\"q");
     let child = prop == "C07" && p.chance(1, 3);
     (Case { xml, events, single, child, origin: format!("gen prop={} seed={} index={}", prop, seed, index) }, gen_doc::count_states(&d))
 }
